@@ -1,0 +1,41 @@
+//go:build verif
+
+// Add-only export shims for the C02 verification harness (/verif/harness/c02).
+// Nothing here changes behaviour; the file is only compiled with `-tags verif`.
+
+package xds
+
+import (
+	"time"
+
+	"go.uber.org/atomic"
+
+	"istio.io/istio/pilot/pkg/model"
+	"istio.io/istio/pkg/xds"
+)
+
+// VerifDebounce runs the unexported debounce loop with explicit options.
+func VerifDebounce(ch chan *model.PushRequest, stopCh <-chan struct{}, after, max time.Duration, edsDebounce bool,
+	pushFn func(req *model.PushRequest), updateSent *atomic.Int64,
+) {
+	debounce(ch, stopCh, DebounceOptions{DebounceAfter: after, debounceMax: max, enableEDSDebounce: edsDebounce}, pushFn, updateSent)
+}
+
+// VerifDoSendPushes runs the unexported sender loop.
+func VerifDoSendPushes(stopCh <-chan struct{}, semaphore chan struct{}, queue *PushQueue) {
+	doSendPushes(stopCh, semaphore, queue)
+}
+
+// VerifNewConnection builds a bare connection usable as a PushQueue key and as a doSendPushes client.
+// Exactly one of stream / delta should be non-nil (as in the real server).
+func VerifNewConnection(id string, stream DiscoveryStream, delta DeltaDiscoveryStream) *Connection {
+	c := &Connection{Connection: xds.NewConnection("verif-peer", stream), deltaStream: delta}
+	c.SetID(id)
+	return c
+}
+
+// VerifEventRequest returns the push request carried by an event read from Connection.PushCh().
+func VerifEventRequest(ev any) *model.PushRequest { return ev.(*Event).pushRequest }
+
+// VerifEventDone calls the event's done function (what Connection.Push does after pushing).
+func VerifEventDone(ev any) { ev.(*Event).done() }
